@@ -48,6 +48,7 @@ def make_taint_rule(origins, kinds, label, scope_prefix=None):
                         "duration-from-float": "a %s-controlled float reaches %s: NaN, infinity or a huge value panics",
                         "time-arith": "a %s-controlled duration is added to a clock value without a bound (%s): overflow panics",
                         "sleep": "the command thread sleeps for a %s-controlled time (%s)",
+                        "loop": "the command thread runs a loop whose iteration count is a %s-controlled number without an upper bound (%s): a huge count keeps the single thread busy (and grows the reply) until the process dies",
                     }[s_["kind"]] % (org, what)
                     R.finding(fn, desc + ":unbounded", "%s: %s, line %s" % (fn.split("::")[-1], msg, s_["line"]), "%s:%s" % (b.file, s_["line"]))
         if scope_prefix:
